@@ -553,6 +553,8 @@ def classify_layout_difference(case, ra, rb):
         a, b = ra[1], rb[1]
         if a[0] == b[0] == 'Series' and sorted(zip(a[1], a[2])) == sorted(zip(b[1], b[2])):
             return 'F20'  # same (label, value) pairs, order depends on layout
+    if name == 'reduce' and rows == 0 and args[0] in ('all', 'any'):
+        return 'F66'  # zero-row logical reductions read uninitialised memory for 2-D blocks
     if name == 'reduce' and args[1] == 0:
         fn, skipna = args[0], args[2]
         if ra[0] == rb[0] == 'ok' and ra[1][0] == rb[1][0] == 'Series' and ra[1][1] == rb[1][1] and _num_equal_tokens(ra[1][2], rb[1][2]):
